@@ -117,7 +117,7 @@ class RefProvider:
         return parent.get("_nid") if isinstance(parent, dict) else None
 
     def resolve(self, parent, obj, field, args, path):
-        f = self.tree.faults.get(tuple(path))
+        f = self.tree.faults.get(tuple(path)) or self.tree.faults.get(("$at", self.nid(parent), field))
         fd = fields_of(self.schema, obj)[field]
         t = ty(fd["type"])
         if f is not None and f.kind != "value_at_item":
